@@ -5,6 +5,7 @@ The statement's acceptor is `Allowed` (Lemmas/Padding.lean); the code's shaping 
 -/
 import AnyTLS.Lemmas.Padding
 import AnyTLS.Lemmas.Session
+import AnyTLS.Model.Proc
 
 namespace AnyTLS.C05
 open AnyTLS AnyTLS.Gen
@@ -128,5 +129,29 @@ theorem pinned_first_packet_uses_line_zero : (0 : Nat) + Gen.pktFetchOffset = 0 
 write of 3 bytes (gap ≤ 7), then stop at the check mark -/
 example : Allowed [.range 5 9, .check, .range 2 2] 3 [3] :=
   .completed_nopad (d := 7) (by omega) (by omega) (by omega) (by omega) (by omega) .check_stop
+
+/-! ### which scheme the preamble of a newly dialled session is shaped by
+
+`Gen.preambleSchemeFrom` / `Gen.sessionSchemeFrom` are regenerated from `Client::create_new_session`: the scheme
+argument of `send_authentication` and of `Session::new_client`.  The obligation: both are the *effective* scheme, so
+the `s` of `preamble_exact` is the very scheme the session runs and announces — also for a session dialled after a
+server has pushed a scheme. -/
+
+theorem gen_preamble_uses_session_scheme :
+    Gen.preambleSchemeFrom = Gen.sessionSchemeFrom ∧ Gen.sessionSchemeFrom = .effective := by decide
+
+/-- the preamble of every newly dialled session is shaped by the scheme that session is created with, which is the
+process-wide effective one -/
+theorem preamble_scheme_is_session_scheme (p : Proc) (cfg : Scheme) :
+    (p.dialSchemes cfg).1 = (p.dialSchemes cfg).2 ∧ (p.dialSchemes cfg).2 = p.global := by
+  obtain ⟨h1, h2⟩ := gen_preamble_uses_session_scheme
+  simp only [Proc.dialSchemes, h1, h2, Proc.pick, and_self]
+
+/-- the excluded shape (preamble from the configured scheme, session from the effective one) does put another
+line 0 on the wire as soon as a different scheme has been pushed -/
+theorem configured_preamble_differs (a b : Scheme) (h : a ≠ b) :
+    let p : Proc := { global := b }
+    p.pick a .configured ≠ p.pick a .effective := by
+  simpa [Proc.pick] using h
 
 end AnyTLS.C05
